@@ -32,7 +32,7 @@ class World:
     PID = PID
     WATCHDOG_S = 60  # a run of this world takes well under a second; beyond this it is a hang
     TIERS = {
-        "quick": {"runs": 4000, "budget_s": 50, "determinism_seeds": 8, "chunk": 50},
+        "quick": {"runs": 8000, "budget_s": 50, "determinism_seeds": 8, "chunk": 50},
         "thorough": {"runs": 300000, "budget_s": 900, "determinism_seeds": 200, "chunk": 300},
     }
     RULE = ("one case = one seeded session of pipeline steps (expand->run->combine, split->run), represent-distribution steps and "
@@ -90,14 +90,14 @@ class World:
                 if prev and r.random() < 0.4:
                     keys = list(r.choice(prev))   # the same outcomes in the same order, other weights (also zeros)
                     m = len(keys)
-                style = r.choice(["rand", "uniform", "halves", "tiny", "zeros", "overshoot", "overshoot"])
+                style = r.choice(["rand", "uniform", "halves", "tiny", "zeros", "overshoot", "overshoot", "overshoot", "overshoot"])
                 ws = []
                 n_over = None
                 if style == "overshoot" and m >= 4:
                     # p_i * N = c_i exactly: many x.5 shares (rounded up -> several shots too many) next to shares
                     # below 0.5 (rounded to zero shots, yet eligible when the surplus is drawn for elimination)
                     small = r.randint(2, max(2, m // 2))
-                    cs = [r.choice([0.5, 1.5, 1.5, 2.5, 3.5]) for _ in range(m - small)]
+                    cs = [r.choice([0.5, 1.5, 1.5, 2.5, 3.5, 1.5, 3.5]) for _ in range(m - small)]
                     rest = sum(cs) % 1
                     tail = [0.25] * small
                     tail[0] += (1 - (rest + 0.25 * small) % 1) % 1
